@@ -1,7 +1,9 @@
 (** Property C03 — node-set results are duplicate-free, ordered, closed under the
-    union laws. Statements only; proofs are in Xp/SortThm.v and Xp/NodeSetThm.v. *)
+    union laws. Statements only; proofs are in Xp/SortThm.v, Xp/NodeSetThm.v and
+    Xp/ValidThm.v (the bridge to C10: every returned node is a node of the document, so
+    on every tree the store builds "sorted by Pos" is "sorted in document order"). *)
 From Coq Require Import Sorting.Sorted.
-From XV Require Import Base.Str Base.Num Doc.Tree Doc.Store Xp.Ast Xp.Nav Xp.Axes Xp.Values Xp.Eval Xp.SortThm Xp.NodeSetThm.
+From XV Require Import Base.Str Base.Num Doc.Tree Doc.Store Doc.StoreThm Doc.Conform Doc.DocOrder Xp.Ast Xp.Nav Xp.Axes Xp.Values Xp.Eval Xp.SortThm Xp.NodeSetThm Xp.ValidThm.
 Local Open Scope Z_scope.
 
 (** every location path ending in an axis step: strictly ascending for a forward
@@ -47,3 +49,91 @@ Definition ex_doc : anode :=
 Example C03_union_example :
   union ex_doc [[SCh 0; SCh 1]; [SCh 0]] [[SCh 0; SCh 0]; [SCh 0]] = [[SCh 0]; [SCh 0; SCh 0]; [SCh 0; SCh 1]].
 Proof. vm_compute. reflexivity. Qed.
+
+(** ** the same in DOCUMENT order (the order on nodes itself), with nothing assumed about
+    positions: for a document-ordered tree (every tree the store builds: C10), a valid
+    cursor and bound node-sets made of nodes of the document *)
+
+(** every node an evaluation returns is a node of the document *)
+Theorem C03_results_are_document_nodes : forall en : env,
+  doc_ordered (e_doc en) -> valid (e_doc en) (e_root en) = true ->
+  (forall q v, assoc_q q (e_vars en) = Some v -> vok en v) ->
+  (forall q v, assoc_q q (e_funs en) = Some (UConst v) -> vok en v) ->
+  (forall e c v, cok en c -> eval en e c = Ok v -> vok en v) /\
+  (forall s c v v', cok en c -> vok en v -> eval_step en s c v = Ok v' -> vok en v').
+Proof. exact eval_valid. Qed.
+
+Theorem C03_path_document_order : forall en : env,
+  doc_ordered (e_doc en) -> valid (e_doc en) (e_root en) = true ->
+  (forall q v, assoc_q q (e_vars en) = Some v -> vok en v) ->
+  (forall q v, assoc_q q (e_funs en) = Some (UConst v) -> vok en v) ->
+  forall abs steps a t preds c l, cok en c ->
+  eval en (EPath abs (steps ++ [SAxis a t preds])) c = Ok (VNodes l) ->
+  (forall p, In p l -> valid (e_doc en) p = true) /\
+  (if axis_reverse a then StronglySorted (fun x y => plt y x) l else StronglySorted plt l).
+Proof. exact path_result_document_order. Qed.
+
+Theorem C03_union_document_order : forall en : env,
+  doc_ordered (e_doc en) -> valid (e_doc en) (e_root en) = true ->
+  (forall q v, assoc_q q (e_vars en) = Some v -> vok en v) ->
+  (forall q v, assoc_q q (e_funs en) = Some (UConst v) -> vok en v) ->
+  forall a b c l, cok en c -> eval en (EUnion a b) c = Ok (VNodes l) ->
+  (forall p, In p l -> valid (e_doc en) p = true) /\ StronglySorted plt l /\ NoDup l.
+Proof. exact union_document_order. Qed.
+
+Theorem C03_filter_document_order : forall en : env,
+  doc_ordered (e_doc en) -> valid (e_doc en) (e_root en) = true ->
+  (forall q v, assoc_q q (e_vars en) = Some v -> vok en v) ->
+  (forall q v, assoc_q q (e_funs en) = Some (UConst v) -> vok en v) ->
+  forall e0 p preds c l, cok en c -> eval en (EFilter e0 (p :: preds) []) c = Ok (VNodes l) ->
+  (forall q, In q l -> valid (e_doc en) q = true) /\ StronglySorted plt l.
+Proof. exact filter_document_order. Qed.
+
+(** the union laws for evaluated operands: A|B = B|A and (A|B)|C = A|(B|C) as equalities of
+    results (errors included), A|A has exactly the nodes of A *)
+Theorem C03_union_commutative_eval : forall en : env,
+  doc_ordered (e_doc en) -> valid (e_doc en) (e_root en) = true ->
+  (forall q v, assoc_q q (e_vars en) = Some v -> vok en v) ->
+  (forall q v, assoc_q q (e_funs en) = Some (UConst v) -> vok en v) ->
+  forall a b c, cok en c -> eval en (EUnion a b) c = eval en (EUnion b a) c.
+Proof. exact eval_union_commutative. Qed.
+
+Theorem C03_union_associative_eval : forall en : env,
+  doc_ordered (e_doc en) -> valid (e_doc en) (e_root en) = true ->
+  (forall q v, assoc_q q (e_vars en) = Some v -> vok en v) ->
+  (forall q v, assoc_q q (e_funs en) = Some (UConst v) -> vok en v) ->
+  forall a b e c, cok en c -> eval en (EUnion (EUnion a b) e) c = eval en (EUnion a (EUnion b e)) c.
+Proof. exact eval_union_associative. Qed.
+
+Theorem C03_union_idempotent_eval : forall en : env,
+  doc_ordered (e_doc en) -> valid (e_doc en) (e_root en) = true ->
+  (forall q v, assoc_q q (e_vars en) = Some v -> vok en v) ->
+  (forall q v, assoc_q q (e_funs en) = Some (UConst v) -> vok en v) ->
+  forall a c l, cok en c -> eval en a c = Ok (VNodes l) ->
+  exists l', eval en (EUnion a a) c = Ok (VNodes l') /\ StronglySorted plt l' /\ (forall p, In p l' <-> In p l).
+Proof. exact eval_union_idempotent. Qed.
+
+(** for every tree the store builds from a conforming stream (C10) *)
+Theorem C03_built_results_in_document_order : forall evs en abs steps a t preds c l,
+  conforming store_init evs -> e_doc en = build evs ->
+  valid (e_doc en) (e_root en) = true ->
+  (forall q v, assoc_q q (e_vars en) = Some v -> vok en v) ->
+  (forall q v, assoc_q q (e_funs en) = Some (UConst v) -> vok en v) ->
+  cok en c ->
+  eval en (EPath abs (steps ++ [SAxis a t preds])) c = Ok (VNodes l) ->
+  (forall p, In p l -> valid (e_doc en) p = true) /\
+  (if axis_reverse a then StronglySorted (fun x y => plt y x) l else StronglySorted plt l).
+Proof. exact built_results_in_document_order. Qed.
+
+(** non-vacuity: the hypotheses hold for Exec's own context on a built document with no
+    bindings, and a reverse-axis path over it returns several nodes *)
+Example C03_document_order_example :
+  let en := Env ex_doc [] [] [] [] false in
+  doc_ordered (e_doc en) /\ valid (e_doc en) (e_root en) = true /\ cok en (Ctx [e_root en] 1 1) /\
+  eval en (EPath true ([SAxis Descendant NTAny []] ++ [SAxis AncestorOrSelf NTAny []])) (Ctx [e_root en] 1 1)
+  = Ok (VNodes [[SCh 0; SCh 1]; [SCh 0; SCh 0]; [SCh 0]]).
+Proof.
+  split; [|split; [reflexivity|split; [intros p [<-|[]]; reflexivity|vm_compute; reflexivity]]].
+  change ex_doc with (build (top_events [Some (SElem (QN [] [97%N]) [] [] [SElem (QN [] [98%N]) [] [] []; SElem (QN [] [99%N]) [] [] []])])).
+  apply built_doc_ordered, top_events_conform.
+Qed.
